@@ -130,6 +130,13 @@ CLAIMS.update({
          'Vocabulary (R2RML / RML / legacy), shortcuts, serialisations (Turtle, shuffled N-Triples, RDF/XML, prefixes, base, blank-node labels, extension) are compared pairwise on the implementation for every generated mapping.',
     note='rdflib parsers, SPARQL and the vocabulary rewrites are outside the Coq model (correspondence only). YARRRML is not rendered by the harness: not covered.',
     technique='Coq proof (normalisation invariant under the factorings) + differential check over spellings', ref='0.3 C09'),
+ 'C10': dict(
+    text='Proof (Coq), partial + correspondence. The readers are third-party code: Model/Data.v arrive states what each one hands over, and that statement is measured on every run (one abstract table rendered into every '
+         'source kind and through file_path, each result against the CSV result and the model). Theorems: given those reader models, for tables of strings and NULLs what reaches term construction is the same in CSV / TSV / Excel '
+         '(text readers), XML, tabular views, columnar files and SQL queries: exactly the rows whose referenced cells are non-null strings, every referenced column reading exactly the string of the table '
+         '(format_independent_reading_partial, two_formats_same_frame_partial) -- no character added, dropped or altered, NULL in one is NULL in all (the empty string being a null token, as by default).',
+    note='Partial: JSON, SQL tables and in-memory sources by correspondence only. Known findings: DataFrame quote stripping, DuckDB type / dialect detection for tabular views. In-memory sources were repaired (fix: bead264).',
+    technique='Coq proof (format-independent frame, given the reader models) + differential check over source formats', ref='0.3 C10'),
  'C11': dict(
     text='Proof (Coq) + correspondence. Theorems: for a plain rule the engine over a frame is the concatenation of a function of each row (engine_is_rowwise), hence additive over unions of row sets (rows_additive) and '
          'insensitive to duplicates and order (duplicates_and_order_irrelevant); _preprocess_data is additive and has set semantics (preprocess_additive, preprocess_set_semantics). Correspondence: whole vs halves vs '
